@@ -265,7 +265,9 @@ func (w *world) request(i int, op, arg string) {
 	if err != nil {
 		res = "err"
 	}
-	w.log(ev{"k": "ret", "i": i, "now": w.now(), "res": res})
+	if !c.rec.dead { // what a process that died inside the call returns is nobody's business
+		w.log(ev{"k": "ret", "i": i, "now": w.now(), "res": res})
+	}
 	w.observe()
 }
 
